@@ -7,6 +7,7 @@ Verdicts
   INCONCLUSIVE  anything else (time-out, OOM, compiler error, unwinding assertion failed,
                 unsupported construct reachable, UNDETERMINED checks, a cover not satisfied)
 """
+import fcntl
 import os
 import re
 import resource
@@ -167,24 +168,60 @@ def classify(checks, info, rc, timed_out, text):
 
 def run_harness(h, log_path, extra=None, mem_gb=None, timeout=None):
     cmd = kani_cmd(h, extra)
-    t0 = time.time()
     timed_out = False
     mem_gb = mem_gb or h.get("mem_gb", 14)
     timeout = timeout or h.get("timeout", 600)
+    os.makedirs(TARGET, exist_ok=True)
     with open(log_path, "w") as lf:
         lf.write("$ " + " ".join(cmd) + "\n")
         lf.flush()
+        # Builds are serialized (one kani-compiler run of the harness crate at a time, across
+        # threads and processes); the lock is released as soon as CBMC starts on the harness.
+        lock = open(os.path.join(TARGET, ".build.lock"), "w")
+        fcntl.flock(lock, fcntl.LOCK_EX)
+        locked = True
+        t0 = time.time()
         p = subprocess.Popen(cmd, cwd=CRATE, env=base_env(), stdout=lf, stderr=subprocess.STDOUT,
                              preexec_fn=_limit(mem_gb))
-        try:
-            rc = p.wait(timeout=timeout)
-        except subprocess.TimeoutExpired:
-            timed_out = True
+        rc = None
+        build_s = None
+        while True:
             try:
-                os.killpg(p.pid, signal.SIGKILL)
-            except ProcessLookupError:
+                rc = p.wait(timeout=0.5)
+                break
+            except subprocess.TimeoutExpired:
                 pass
-            rc = p.wait()
+            if locked:
+                try:
+                    with open(log_path, errors="replace") as rf:
+                        started = "Checking harness" in rf.read()
+                except OSError:
+                    started = False
+                if started:
+                    build_s = time.time() - t0
+                    fcntl.flock(lock, fcntl.LOCK_UN)
+                    locked = False
+                    t_ver = time.time()
+            # the time budget applies to verification, not to waiting for / doing the build
+            if not locked and time.time() - t_ver > timeout:
+                timed_out = True
+                try:
+                    os.killpg(p.pid, signal.SIGKILL)
+                except ProcessLookupError:
+                    pass
+                rc = p.wait()
+                break
+            if locked and time.time() - t0 > 3600:
+                timed_out = True
+                try:
+                    os.killpg(p.pid, signal.SIGKILL)
+                except ProcessLookupError:
+                    pass
+                rc = p.wait()
+                break
+        if locked:
+            fcntl.flock(lock, fcntl.LOCK_UN)
+        lock.close()
     wall = time.time() - t0
     text = open(log_path, errors="replace").read()
     checks, info = parse_output(text)
@@ -197,6 +234,7 @@ def run_harness(h, log_path, extra=None, mem_gb=None, timeout=None):
         "reason": reason,
         "failing": failing,
         "wall_s": round(wall, 2),
+        "build_s": round(build_s, 2) if build_s else None,
         "rc": rc,
         "cmd": " ".join(cmd),
         "n_checks": len(props),
